@@ -234,6 +234,11 @@ theorem configurationOverview_perm (cfg : Config) (ports' : PortsCfg) (h : Ports
   unfold configurationOverview
   simp only [← strLines_perm _ _ h, ← h.multiclient]
 
+theorem shellProjectIncludes_cfg (cfg : Config) (ports' : PortsCfg) (h : cfg.ports.multiclient = ports'.multiclient) (o) :
+    shellProjectIncludes { cfg with ports := ports' } o = shellProjectIncludes cfg o := by
+  unfold shellProjectIncludes
+  simp only [← h]
+
 theorem creatorInfoOverview_cfg (cfg : Config) (ports' : PortsCfg) :
     creatorInfoOverview { cfg with ports := ports' } = creatorInfoOverview cfg := rfl
 
@@ -244,7 +249,7 @@ theorem build_cfg_order_free (fc : FC) (cfg : Config) (ports' : PortsCfg) (h : P
     build fc { cfg with ports := ports' } = build fc cfg := by
   unfold build buildShell
   simp only [createDznElements_perm cfg ports' h, configurationOverview_perm cfg ports' h,
-    creatorInfoOverview_cfg, ← h.multiclient]
+    creatorInfoOverview_cfg, shellProjectIncludes_cfg cfg ports' h.multiclient, ← h.multiclient]
 
 /-! ### iteration order of the model's port-name sets -/
 
